@@ -24,6 +24,7 @@ import Ogen.AuthHeaderDriver
 import Ogen.UuidText_proof
 import Ogen.DocLines_proof
 import Ogen.DurationText_proof
+import Ogen.BoundMerge_proof
 
 /-! Line-protocol driver over all executable models: `<model> <payload>` per line, one
     canonical output line per input line. Core-only (no Mathlib) so it links natively. -/
@@ -73,6 +74,7 @@ def dispatch (line : String) : String :=
     | "vfloat" => FloatV.floatLine payload
     | "jcodec" => JCodecDrv.codecLine payload
     | "jaccept" => JCodecDrv.acceptLine payload
+    | "bmerge" => BoundM.mergeLine payload
     | "durfmt" => DurT.fmtLine payload
     | "durval" => DurT.valLine payload
     | "docsplit" => DocLines.splitLineLine payload
